@@ -259,6 +259,11 @@ def run(P, R, L):
     R.clause("ERR-3", "a source that could not be positioned is reported by the merging iterator's seek methods (a scan fails, it does not serve what the source shadows)")
     K.err3_merge_seek_reports(P, R, L)
     from . import round12
+    R.clause("GRD-4 (manifest)", "nothing is appended to the manifest behind a failed append: a table compaction that is in flight when a flush fails neither retries the flush nor installs its results (records behind a torn record make the manifest unreadable - the database cannot be reopened)")
+    R.once(round12.grd4b_no_manifest_append_under_sticky_error, P, R, L)
+    R.clause("OWN-8", "a file number handed out is never handed out again after a failed operation gave one back (reuse_file_number rewinds only the number it was given, and only while it is still the newest): a reused number truncates a live table")
+    R.once(K.own8_file_numbers, P, R, L)
+    from . import round12
     R.clause("ERR-6", "a Result consumed only by unwrap / expect comes from a callee confirmed infallible: a failing storage operation is never answered with a panic (neither an error nor an effect; on the compaction thread a dead worker)")
     R.once(round12.err6_no_panic_on_a_fallible_result, P, R, L)
     # "after the fault is gone and the database is reopened, it contains every write that returned Ok": what a reopen restores
